@@ -85,8 +85,15 @@ def opcode(name, setname):
     return None
 
 
+_PAT = {}
+
+
 def pattern(n, salt=0):
-    return bytearray(((i * 7 + 3 + salt) & 0xFF) for i in range(n))
+    key = (n, salt & 0xFF)
+    if key not in _PAT:
+        base = bytes(((i * 7 + 3 + salt) & 0xFF) for i in range(256))
+        _PAT[key] = (base * (n // 256 + 1))[:n]
+    return bytearray(_PAT[key])
 
 
 def benign(name, setname="sbc"):
